@@ -29,7 +29,7 @@ func errClass(msg string) string {
 }
 
 // errShape checks (c): message, position range, line, selected text, order.
-func errShape(c *core.Ctx, cs srcCase, errs []*errors.Error) {
+func errShape(c *core.Ctx, cs srcCase, errs []*errors.Error, atLex []int, lexTotal int) {
 	src := cs.Src
 	lt := lexm.NewLineTable(src)
 	var spans map[[2]int]bool
@@ -43,10 +43,14 @@ func errShape(c *core.Ctx, cs srcCase, errs []*errors.Error) {
 			c.Report("error shape: empty message", mkWhat("error %d of %q", i, src), cs)
 		}
 		p := e.Pos
+		cl := errClass(e.Msg)
 		if p == nil {
+			// "no position" stands for the end of the input: the scanner must already have handed out its last token
+			if i < len(atLex) && atLex[i] < lexTotal {
+				c.Report("error shape: no position although the error is not at the end of the input ("+cl+")", mkWhat("%s (error %d, delivered after %d of %d tokens) in %q", e.Msg, i, atLex[i], lexTotal, src), cs)
+			}
 			continue
 		}
-		cl := errClass(e.Msg)
 		if p.StartPos < 0 || p.EndPos > len(src) || p.StartPos > p.EndPos {
 			c.Report("error shape: position out of range ("+cl+")", mkWhat("[%d,%d) of %d bytes: %s in %q", p.StartPos, p.EndPos, len(src), e.Msg, src), cs)
 			continue
@@ -131,7 +135,7 @@ func c06One(c *core.Ctx, cs srcCase) {
 	} else {
 		c.Stat("parses_with_errors", 1)
 		c.Stat("errors_shape_checked", int64(res.NErr()))
-		errShape(c, cs, res.Errs)
+		errShape(c, cs, res.Errs, res.ErrAtLex, res.LexCalls)
 	}
 	// (d) callback independence
 	r2 := drive.Parse(cs.Src, v, false)
